@@ -19,7 +19,19 @@ from astropy.io import fits
 _real_stdout = sys.stdout
 sys.stdout = sys.stderr   # astropy's logger writes INFO lines to stdout
 
-from pydl.pydlspec2d.spec1d import readspec, spec_append  # noqa: E402
+from pydl.pydlspec2d.spec1d import readspec, spec_append, spec_path  # noqa: E402
+
+# record every file readspec opens (spec1d calls fits.open through the module attribute)
+OPENED = []
+_orig_open = fits.open
+
+
+def _recording_open(name, *a, **k):
+    OPENED.append(str(name))
+    return _orig_open(name, *a, **k)
+
+
+fits.open = _recording_open
 import pydl  # noqa: E402
 
 SCALE = 1 << 20
@@ -145,13 +157,14 @@ def run_call(c):
     if c.get('fiber') is not None:
         args['fiber'] = conv(c['fiber'], c.get('dtype', 'i4'))
     plate = conv(c['plate'], c.get('dtype', 'i4'))
+    del OPENED[:]
     try:
         with warnings.catch_warnings():
             warnings.simplefilter('ignore')
             r = readspec(plate, **args, **kw)
     except Exception as e:  # noqa: BLE001 - the error class is the observation
-        return {'err': type(e).__name__, 'msg': str(e)[:200]}
-    out = {'keys': sorted(r.keys()), 'arrays': [], 'names': [], 'bad': []}
+        return {'err': type(e).__name__, 'msg': str(e)[:200], 'opened': list(OPENED)}
+    out = {'keys': sorted(r.keys()), 'arrays': [], 'names': [], 'bad': [], 'opened': list(OPENED)}
 
     max_rows = int(c.get('max_rows', 1 << 30))
 
@@ -205,6 +218,19 @@ def run_append(c):
                                      np.array_equal(b, np.array(c['b'], dtype=b.dtype)))}
 
 
+def run_specpath(c):
+    for k in ENV_KEYS:
+        os.environ.pop(k, None)
+    for k, v in c['env'].items():
+        os.environ[k] = v
+    plate = conv(c['plate'], c.get('dtype', 'i4'))
+    try:
+        r = spec_path(plate, **c['kwargs'])
+    except Exception as e:  # noqa: BLE001
+        return {'err': type(e).__name__, 'msg': str(e)[:200]}
+    return {'ok': [str(x) for x in r]}
+
+
 def main():
     payload = json.load(sys.stdin)
     results = []
@@ -218,6 +244,8 @@ def main():
                     build_tree(t)
                 rs.append(run_call(c))
             results.append(rs)
+        elif job['kind'] == 'specpath':
+            results.append([run_specpath(c) for c in job['cases']])
         else:
             results.append([run_append(c) for c in job['cases']])
     json.dump({'pydl_file': pydl.__file__, 'results': results}, _real_stdout)
